@@ -17,6 +17,9 @@ from concurrent.futures import ThreadPoolExecutor
 
 CHECKS = ["C%02d" % i for i in range(1, 21)]
 SLOTS = int(os.environ.get("SLOTS", "3"))
+# MUTDIR=mutout2 TAG=r2 evaluates /tmp/mutout2-<ID>/patch<i>.diff as <ID>r2-<i>
+MUTDIR = os.environ.get("MUTDIR", "mutout")
+TAG = os.environ.get("TAG", "")
 SNAP = subprocess.run("git -C /verif rev-parse HEAD", shell=True, capture_output=True, text=True).stdout.strip()
 
 def sh(cmd, cwd=None, env=None, timeout=3600):
@@ -44,8 +47,8 @@ def demo(wt, tgt, name):
 
 def evaluate(job):
     slot, ident, i = job
-    name = f"{ident}-{i}"
-    src = f"/tmp/mutout-{ident}"
+    name = f"{ident}{TAG}-{i}"
+    src = f"/tmp/{MUTDIR}-{ident}"
     patch = f"{src}/patch{i}.diff"
     wt = f"/tmp/ev-{name}"
     tgt = f"/tmp/evtarget-{slot}"
@@ -129,7 +132,7 @@ def main():
     ids = sys.argv[1:]
     for ident in ids:
         for i in (1, 2):
-            if os.path.exists(f"/tmp/mutout-{ident}/patch{i}.diff"):
+            if os.path.exists(f"/tmp/{MUTDIR}-{ident}/patch{i}.diff"):
                 jobs.append((ident, i))
     jobs = [(k % SLOTS, a, b) for k, (a, b) in enumerate(jobs)]
     # one job per slot at a time
@@ -140,9 +143,9 @@ def main():
             try:
                 r = evaluate(j)
             except Exception as e:
-                r = {"id": f"{j[1]}-{j[2]}", "error": repr(e)}
+                r = {"id": f"{j[1]}{TAG}-{j[2]}", "error": repr(e)}
             out.append(r)
-            with open(f"/tmp/evalmut-{j[1]}-{j[2]}.json", "w") as fh:
+            with open(f"/tmp/evalmut-{j[1]}{TAG}-{j[2]}.json", "w") as fh:
                 json.dump(r, fh, indent=1)
             print(json.dumps({k: r.get(k) for k in ("id", "suite_with_patch", "demo_with_patch", "demo_clean", "caught_by_quick", "machinery_errors", "error")}), flush=True)
         return out
